@@ -277,6 +277,11 @@ def run(F, chk):
                           "being re-derived or adjusted: it now designates a different block" % (name, fn["name"]))
     chk.floor(R5, 12, "(uses of block-index integers in functions that delete blocks)")
 
+    # ---------------------------------------------------------------- R6.8
+    chk.share(F, "c05", ["R5.1", "R5.2", "R5.5"], "R6.8",
+              "BlockDeleted and SetBlockOrder fix up exactly the references the enumerators report")
+    chk.floor("R6.8", 600)
+
     chk.assumptions += ["NiRef/NiBlockRef members are shifted by NiHeader::BlockDeleted (C05 makes them all visible); only plain "
                         "integers can go stale",
                         "the index arithmetic inside BlockDeleted (== clears, > decrements) and the type-table refcount threshold "
